@@ -205,13 +205,32 @@ def h_cli_add(axis_cfg):
     sc = pick([None, ['list', 'taxonomy', 'TAX', 'L']], 'sc-separated')
     ints = pick([None, ['depth', 'score', 'D']], 'int-fields')
     floats = pick([None, ['depth', 'D']], 'float-fields') if ints is None else None
-    sig = dict(axes=axis_cfg)
+    via = pick(['helper', 'click-callback'], 'via')
+    sig = dict(axes=axis_cfg, via=via)
 
     def lines_for(lines, hdr):
         return [l for l in lines if not (hdr is not None and l.startswith('#'))]
-    r, e = call(lambda: M._add_metadata(t, lines_for(s_lines, s_hdr) if use_s else None, lines_for(o_lines, o_hdr) if use_o else None,
-                                        sc_separated=sc, int_fields=ints, float_fields=floats,
-                                        sample_header=s_hdr, observation_header=o_hdr))
+    if via == 'helper':
+        r, e = call(lambda: M._add_metadata(t, lines_for(s_lines, s_hdr) if use_s else None, lines_for(o_lines, o_hdr) if use_o else None,
+                                            sc_separated=sc, int_fields=ints, float_fields=floats,
+                                            sample_header=s_hdr, observation_header=o_hdr))
+    else:
+        # the command itself: options arrive as comma separated strings, files are opened by path (I/O stubbed)
+        files = {'samples.txt': lines_for(s_lines, s_hdr), 'observations.txt': lines_for(o_lines, o_hdr)}
+        written = []
+        M.load_table = lambda fp: t
+        M.open = lambda fp, *a_: files[fp]
+        M.write_biom_table = lambda table, fmt, fp: written.append((table, fmt, fp))
+        join = lambda x: None if x is None else ','.join(x)      # noqa
+        as_json = flag('output-as-json')
+        _, e = call(lambda: M.add_metadata.callback(
+            input_fp='in.biom', output_fp='out.biom', sample_metadata_fp='samples.txt' if use_s else None,
+            observation_metadata_fp='observations.txt' if use_o else None, sc_separated=join(sc), sc_pipe_separated=None,
+            int_fields=join(ints), float_fields=join(floats), sample_header=join(s_hdr), observation_header=join(o_hdr),
+            output_as_json=as_json))
+        r = written[0][0] if written else None
+        if e is None and (len(written) != 1 or written[0][1] != ('json' if as_json else 'hdf5') or written[0][2] != 'out.biom'):
+            fail('cli-add:output', repr([(w[1], w[2]) for w in written]), **sig)
     if e is not None:
         fail('cli-add:raised', f"{type(e).__name__}: {e}"[:160], **sig)
         return
